@@ -53,6 +53,7 @@ type Run struct {
 	WindowFault     bool   // ... between "pushed changes stored" and "client checkpoint stored" (finding P8)
 	Stale           []bool // client attached under an older epoch (a compaction happened since)
 	Compactions     int
+	SnapshotHeld    int // Kq steps in which a background snapshot was actually held across the compaction
 	ref             *RefReplica
 	cacheOnly       bool
 	Trace           []sim.CallRec
@@ -607,6 +608,50 @@ func (r *Run) exec(ctx context.Context, idx int, st *Step) StepObs {
 	}
 	rp := r.R[st.C]
 	attached := rp.A != nil && rp.A.Attached
+	if st.Op == "Kq" {
+		// a forced compaction while the snapshot that the previous sync started in the background
+		// is still being stored: client C syncs, the snapshot (if one is due) is held right before
+		// it is written, the compaction runs, then the snapshot is let go
+		if !attached || rp.Inflight != nil || rp.Lost != nil || rp.Parked != nil || r.Stale[st.C] {
+			obs.Skipped = true
+			return obs
+		}
+		r.S.Be.WaitBackgroundIdleForVerif()
+		fdb := r.S.InstallFaultDB()
+		reached, release := fdb.ParkAt("CreateSnapshotInfo")
+		if len(st.Edits) > 0 {
+			_, _ = safeUpdate(rp.A.Doc, st.Edits, "")
+		}
+		if err := rp.A.Sync(ctx); err != nil {
+			release()
+			r.S.Be.WaitBackgroundIdleForVerif()
+			obs.Err = sim.ErrClass(err) + " | " + trunc(err.Error(), 160)
+			return obs
+		}
+		held := false
+		select {
+		case <-reached:
+			held = true
+		case <-gotime.After(60 * gotime.Millisecond):
+			release()
+		}
+		done := make(chan StepObs, 1)
+		go func() { done <- r.compactStep(ctx, idx, true) }()
+		if held {
+			r.SnapshotHeld++
+			select {
+			case obs = <-done: // cannot happen while the snapshot is held (compactStep waits for the background)
+			case <-gotime.After(150 * gotime.Millisecond):
+			}
+			release()
+		}
+		select {
+		case obs = <-done:
+		case <-gotime.After(20 * gotime.Second):
+			r.problem("compaction-hangs", idx, "forced compaction with a snapshot in flight did not return")
+		}
+		return obs
+	}
 	localBefore := 0
 	if rp.A != nil {
 		localBefore = len(rp.A.Doc.CreateChangePack().Changes)
@@ -1010,7 +1055,7 @@ func (rn *Runner) RunFull(ctx context.Context, h *History) (*Run, *Outcome) {
 		// a rebuild refreshes the snapshot cache, so rebuilding after every step would hide a stale
 		// entry: in sparse mode only about one eligible step in five is followed by a rebuild
 		sparseOK := !rn.ServerDocSparse || (uint64(i)*2654435761+h.Seed*40503+uint64(len(h.Steps)))%5 == 0
-		if ref != nil && sparseOK && (st.Op == "S" || st.Op == "Sb" || st.Op == "Sp" || st.Op == "Sr" || st.Op == "A" || st.Op == "D" || st.Op == "K" || st.Op == "Kf") && !o.Skipped {
+		if ref != nil && sparseOK && (st.Op == "S" || st.Op == "Sb" || st.Op == "Sp" || st.Op == "Sr" || st.Op == "A" || st.Op == "D" || st.Op == "K" || st.Op == "Kf" || st.Op == "Kq") && !o.Skipped {
 			r.CheckServerDocNow(ctx, ref, i)
 		}
 		if rn.Hook != nil {
